@@ -189,8 +189,43 @@ impl Writer {
         }
     }
 
+    /// Buffers of 9 to 18 MiB that really fill (or nearly fill): one flush of more than 2^20 words, more than
+    /// 16 MiB pending at once, item widths that leave the buffer off a word boundary at that moment.
+    pub fn generate_giant_buffer(rng: &mut Rng) -> Writer {
+        let kind = if rng.bool() { WKind::Raw } else { WKind::Int };
+        let width = if kind == WKind::Int { *rng.pick(&[31usize, 37, 7, 33, 64]) } else { 64 };
+        let mib = *rng.pick(&[9usize, 12, 17, 18]);
+        let buf_bits = mib * 8 * 1024 * 1024 + *rng.pick(&[0usize, 64, 1984]);
+        let buf_len = Some(if kind == WKind::Int { buf_bits / width } else { buf_bits });
+        let target = match rng.below(3) { 0 => buf_bits - rng.range_usize(1, 5000), 1 => buf_bits + rng.range_usize(0, 5000), _ => buf_bits + rng.range_usize(100_000, 3_000_000) };
+        let mut ops = Vec::new();
+        let mut bits = 0usize;
+        while bits < target {
+            let left = target - bits;
+            match kind {
+                WKind::Raw => {
+                    let w = *rng.pick(&[31usize, 64, 13, 1]);
+                    if w == 1 { let n = rng.range_usize(1, 200).min(left); ops.push(WOp::Bits { n, salt: rng.next() & 0xFFFF }); bits += n; }
+                    else { let n = (rng.range_usize(1, 40_000_000) / w).min(left / w).max(1); ops.push(WOp::Ints { n, w, salt: rng.next() & 0xFFFF }); bits += n * w; }
+                },
+                WKind::Int => { let n = (rng.range_usize(1, 40_000_000) / width).min(left / width).max(1); ops.push(if rng.bool() { WOp::PushN { n, salt: rng.next() & 0xFFFF } } else { WOp::Extend { ity: 3, n, salt: rng.next() & 0xFFFF, inexact: rng.bool() } }); bits += n * width; },
+            }
+        }
+        if rng.chance(1, 3) { ops.push(WOp::Len); }
+        for _ in 0..rng.below(3) { ops.push(WOp::Close); }
+        Writer {
+            kind, width, buf_len, header: Vec::new(), ops,
+            chunk: if rng.chance(2, 3) { Chunk::Unbounded } else { Chunk::Max(1 << 20) },
+            eintr: Vec::new(), fault: None,
+            real: if rng.chance(1, 8) { RealMode::Plain } else { RealMode::Sim },
+            preexisting: 0,
+            unwind_drop: rng.chance(1, 6),
+        }
+    }
+
     pub fn generate(rng: &mut Rng, faulty: bool, big: bool) -> Writer {
         if !faulty && rng.chance(1, 250) { return Writer::generate_uniform_buffers(rng); }
+        if !faulty && rng.chance(1, 40_000) { return Writer::generate_giant_buffer(rng); }
         let kind = if rng.bool() { WKind::Raw } else { WKind::Int };
         let width = gen_width(rng);
         let unit = if kind == WKind::Int { width } else { 1 };
@@ -556,6 +591,7 @@ impl Writer {
             out.stats.probe_if(self.buf_len.is_none() && (tr.flush_overflow || tr.flush_exact), "default-buffer flush");
             out.stats.probe_if(self.buf_len == Some(0), "buffer size 0");
             out.stats.probe_if(self.effective_buf_bits() > 8 * 1024 * 1024 && (tr.flush_overflow || tr.flush_exact), "flush of a buffer larger than the default");
+            out.stats.probe_if(self.effective_buf_bits() > 64 * 1024 * 1024 && pushes > 0, "buffer above 8 MiB");
             out.stats.probe_if(!self.header.is_empty(), "parent header (close_with_header)");
             let zero_run = self.ops.iter().any(|op| match op { WOp::Ints { n, w, salt } => salt >> 16 == 1 && n * w >= 32_768, WOp::PushN { n, salt } | WOp::Extend { n, salt, .. } => salt >> 16 == 1 && n * self.width >= 32_768, _ => false });
             out.stats.probe_if(zero_run && tr.flush_exact && self.effective_buf_bits() >= 32_768, "whole buffer of zeros ending on a flush boundary");
